@@ -70,37 +70,7 @@ pub fn corpus_case(seed: u64, case: u64) -> (OptSpec, Vec<Vec<Vec<u8>>>) {
         let mut spec = p.level(1);
         // one short letter that is both a flag and an argument: ambiguous clusters
         if p.rng.chance(1, 3) {
-            if let Spec::Seq(fields) = &mut spec.root {
-                if fields.len() < 10 {
-                    let c = *p.rng.pick(&['q', 'w', 'x']);
-                    let id1 = p.id();
-                    let id2 = p.id();
-                    fields.insert(
-                        0,
-                        Spec::Item(Item {
-                            id: id1,
-                            names: Names::short(c),
-                            help: None,
-                            leaf: Leaf::Switch,
-                        }),
-                    );
-                    let arg = Spec::Item(Item {
-                        id: id2,
-                        names: Names {
-                            shorts: vec![c],
-                            longs: vec![format!("amb{}", id2)],
-                            envs: vec![],
-                        },
-                        help: None,
-                        leaf: Leaf::Arg {
-                            ty: Ty::Str,
-                            metavar: format!("M{}", id2),
-                            adjacent: false,
-                        },
-                    });
-                    fields.insert(1, Spec::wrap(W::Optional { catch: false }, p.id(), arg));
-                }
-            }
+            p.inject_ambiguous(&mut spec);
         }
         spec
     };
